@@ -310,7 +310,11 @@ func (x *runner) pickRef() (pdf.Reference, bool) {
 		x.pend = append(x.pend[:i], x.pend[i+1:]...)
 		return ref, true
 	case k == 3:
-		ref := pdf.NewReference(uint32(1+x.r.IntN(60)), uint16(x.r.IntN(3)))
+		// any small number, in use or not - also 0, which no object may have
+		ref := pdf.NewReference(uint32(x.r.IntN(61)), BoundaryGens[x.r.IntN(len(BoundaryGens))])
+		if x.r.IntN(6) == 0 {
+			ref = pdf.NewReference(0, 0)
+		}
 		x.res.UserRefs = append(x.res.UserRefs, ref)
 		x.res.Provoked = true // may collide with a number in use
 		return ref, true
@@ -713,9 +717,9 @@ func Run(r *rand.Rand, cfg Config, plan Plan) *Result {
 	alive := true
 	if plan.Sparse {
 		res.Sparse = true
-		ref := pdf.NewReference(uint32(15000+r.IntN(3000)), uint16(r.IntN(4)))
+		ref := pdf.NewReference(uint32(15000+r.IntN(3000)), BoundaryGens[r.IntN(len(BoundaryGens))])
 		if plan.SparseHigh {
-			ref = pdf.NewReference(uint32(66000+r.IntN(5000)), uint16(r.IntN(4)))
+			ref = pdf.NewReference([]uint32{65535, 65536, uint32(66000 + r.IntN(5000))}[r.IntN(3)], BoundaryGens[r.IntN(len(BoundaryGens))])
 		}
 		res.UserRefs = append(res.UserRefs, ref)
 		alive = x.put(ref, GenObj(r, 0, nil))
